@@ -73,6 +73,11 @@ def check(v, scs, d, cat, obs, sel_model, fails, nselects):
     """The statement of C19 on the current state; sel_model: slot -> (ids, subtree) or None."""
     xcol, ycol = 'x_cen', 'y_cen'
     rows = {int(i): (float(cat[xcol][k]), float(cat[ycol][k])) for k, i in enumerate(cat['_idx'])}
+    # "the displayed slice": the image on screen is the plane the viewer says it shows (clicks are resolved in it)
+    shown = np.asarray(v.image.get_array())
+    plane = d.data if d.data.ndim == 2 else d.data[obs['slice'], :, :]
+    if shown.shape != plane.shape or not np.array_equal(np.asarray(shown, dtype=float), np.asarray(plane, dtype=float), equal_nan=True):
+        fails.append('the image on screen is not plane %r of the data' % (obs['slice'],))
     for slot in (1, 2, 3):
         o = obs[slot]
         m = sel_model.get(slot, 'untouched')
